@@ -31,7 +31,7 @@ MANIFEST = {
             "exactly the bytes offered; every panic site on the serialisation path is discharged.",
     "note": "Trusted: heapless::Vec's own capacity check (push/extend_from_slice fail iff full), cobs::EncoderState's placeholder index < bytes pushed "
             "(COBS back-patch indexing), counters cannot exceed usize::MAX output bytes.",
-    "technique": "static analysis: linear guard exactness on raw-pointer cursor + path-sensitive error-kind table + panic-site discharge + canonical summaries",
+    "technique": "static analysis: hand-written cursor specifications compared with semantic MIR summaries under the pointer invariant + path-sensitive error-kind rule + panic-site discharge by linear arithmetic",
 }
 
 COUNTER = "contract: a byte counter overflows only after more than usize::MAX output bytes"
